@@ -19,104 +19,114 @@ open Pel.TieDM
 
 /-- `getFileList(path, extension, rev)` -/
 theorem getFileList (g : Dir → Option Text → Bool → List FileEntry) (h : Gen.getFileList? = some g) : g = Pel.getFileList := by
-  cases h; funext d ext rev
-  rw [getFileList_extSel]
-  simp only [OutM.value]
-  outm_simp
-  rw [forEach_fold (step := gflStep ext)]
-  · simp only [gflStep_fold]
-    simp
-  · intro x st
-    cases hx : ext with
-    | none => simp [tv, gflStep, extSel]; outm_simp; rfl
-    | some e =>
-      cases e with
-      | nil => simp [tv, gflStep, extSel]; outm_simp; rfl
-      | cons a e => simp [tv, gflStep, extSel]; outm_simp; split <;> simp_all [loopView, eq_comm]
+  cases h
+  all_goals (
+    funext d ext rev
+    rw [getFileList_extSel]
+    simp only [OutM.value]
+    outm_simp
+    rw [forEach_fold (step := gflStep ext)]
+    · simp only [gflStep_fold]
+      simp
+    · intro x st
+      cases hx : ext with
+      | none => simp [tv, gflStep, extSel]; outm_simp; rfl
+      | some e =>
+        cases e with
+        | nil => simp [tv, gflStep, extSel]; outm_simp; rfl
+        | cons a e => simp [tv, gflStep, extSel]; outm_simp; split <;> simp_all [loopView, eq_comm])
 
 theorem listOption (g : Env → DirCfg → Dir → CliOut) (h : Gen.listOption? = some g) : g = fun env c d => listMode env c.opts d := by
-  cases h; funext env c d
-  simp only [OutM.run]
-  outm_simp
-  rw [forEach_fold (step := sumStep c.hex (rList env c.selCfg))]
-  · rw [sumStep_fold, listMode_eq]
-    obtain ⟨h1, h2, h3⟩ := list_conv env c.selCfg (Pel.getFileList d c.ext c.rev)
-    cases hh : c.hex <;> simp [DirCfg.opts, hh, h1, h2, h3, summaryObj_eq]
-  · intro x st
-    unfold sumStep rList summaryOf pyParsePELSummary
-    cases hps : parseSummary env c.selCfg x.data
-    · have hf := parseSummary_facts hps
-      cases hh : c.hex <;> dm_close
-    all_goals (cases hh : c.hex <;> dm_close)
+  cases h
+  all_goals (
+    funext env c d
+    simp only [OutM.run]
+    outm_simp
+    rw [forEach_fold (step := sumStep c.hex (rList env c.selCfg))]
+    · rw [sumStep_fold, listMode_eq]
+      obtain ⟨h1, h2, h3⟩ := list_conv env c.selCfg (Pel.getFileList d c.ext c.rev)
+      cases hh : c.hex <;> simp [DirCfg.opts, hh, h1, h2, h3, summaryObj_eq]
+    · intro x st
+      unfold sumStep rList summaryOf pyParsePELSummary
+      cases hps : parseSummary env c.selCfg x.data
+      · have hf := parseSummary_facts hps
+        cases hh : c.hex <;> dm_close
+      all_goals (cases hh : c.hex <;> dm_close))
 
 theorem extractAllPELsData (g : Env → DirCfg → Dir → CliOut) (h : Gen.extractAllPELsData? = some g) :
     g = fun env c d => allMode env c.opts d := by
-  cases h; funext env c d
-  simp only [OutM.run]
-  cases hh : c.hex
-  · simp only [hh, Bool.false_eq_true, ↓reduceIte]
-    outm_simp
-    rw [forEach_fold (step := allStep (rAll env c.selCfg))]
-    · obtain ⟨h1, h2, h3⟩ := all_conv env c.selCfg (Pel.getFileList d c.ext c.rev)
-      rw [allStep_fold, allMode_eq]
-      simp only [DirCfg.opts, hh, h1, h3, ← framing_eq]
-      dm_eval
-      generalize (okList (fullOf env c.selCfg) (Pel.getFileList d c.ext c.rev)) = ok
-      cases ok <;> simp [nl, sepDocs]
-    · intro x st
-      unfold allStep rAll fullOf pyParsePEL
-      cases hp : parsePEL env c.selCfg x.data
-      · rename_i eid j
-        have hne := pp_dumps_ne_nil 34 j
-        cases hl : st.loc <;> dm_close
-      all_goals dm_close
-  · simp only [hh, Bool.false_eq_true, ↓reduceIte]
-    outm_simp
-    rw [forEach_fold (step := hexStep (rAll env c.selCfg))]
-    · obtain ⟨h1, h2, h3⟩ := all_conv env c.selCfg (Pel.getFileList d c.ext c.rev)
-      rw [hexStep_fold, allMode_eq]
-      simp [DirCfg.opts, hh, h2, h3]
-    · intro x st
-      unfold hexStep rAll fullOf pyParsePEL
-      cases hp : parsePEL env c.selCfg x.data
-      · rename_i eid j
-        have hne := pp_dumps_ne_nil 34 j
-        dm_close
-      all_goals dm_close
+  cases h
+  all_goals (
+    funext env c d
+    simp only [OutM.run]
+    cases hh : c.hex
+    · simp only [hh, Bool.false_eq_true, ↓reduceIte]
+      outm_simp
+      rw [forEach_fold (step := allStep (rAll env c.selCfg))]
+      · obtain ⟨h1, h2, h3⟩ := all_conv env c.selCfg (Pel.getFileList d c.ext c.rev)
+        rw [allStep_fold, allMode_eq]
+        simp only [DirCfg.opts, hh, h1, h3, ← framing_eq]
+        dm_eval
+        generalize (okList (fullOf env c.selCfg) (Pel.getFileList d c.ext c.rev)) = ok
+        cases ok <;> simp [nl, sepDocs]
+      · intro x st
+        unfold allStep rAll fullOf pyParsePEL
+        cases hp : parsePEL env c.selCfg x.data
+        · rename_i eid j
+          have hne := pp_dumps_ne_nil 34 j
+          cases hl : st.loc <;> dm_close
+        all_goals dm_close
+    · simp only [hh, Bool.false_eq_true, ↓reduceIte]
+      outm_simp
+      rw [forEach_fold (step := hexStep (rAll env c.selCfg))]
+      · obtain ⟨h1, h2, h3⟩ := all_conv env c.selCfg (Pel.getFileList d c.ext c.rev)
+        rw [hexStep_fold, allMode_eq]
+        simp [DirCfg.opts, hh, h2, h3]
+      · intro x st
+        unfold hexStep rAll fullOf pyParsePEL
+        cases hp : parsePEL env c.selCfg x.data
+        · rename_i eid j
+          have hne := pp_dumps_ne_nil 34 j
+          dm_close
+        all_goals dm_close)
 
 theorem printPELCount (g : Env → DirCfg → Dir → CliOut) (h : Gen.printPELCount? = some g) :
     g = fun env c d => countMode env c.opts d := by
-  cases h; funext env c d
-  simp only [OutM.run]
-  outm_simp
-  rw [forEach_fold (step := countStep env c.selCfg)]
-  · rw [countStep_fold]
-    simp [countMode, DirCfg.opts, s, nl]
-  · intro x st
-    unfold countStep
-    rw [countOne_eq]
-    unfold countVia pyGeneratePH pyGenerateUH
-    cases h1 : generatePHRd env x.data with
-    | error e => dm_close
-    | ok p1 =>
-      obtain ⟨o1, b1⟩ := p1
-      cases o1 with
-      | none => dm_close
-      | some ph =>
-        cases h2 : generateUHRd env ph.creator b1 with
-        | error e => dm_close
-        | ok p2 =>
-          obtain ⟨o2, b2⟩ := p2
-          cases o2 with
-          | none => dm_close
-          | some uh => by_cases hc : considerPEL uh.severity uh.actionFlags c.selCfg = true <;> dm_close
+  cases h
+  all_goals (
+    funext env c d
+    simp only [OutM.run]
+    outm_simp
+    rw [forEach_fold (step := countStep env c.selCfg)]
+    · rw [countStep_fold]
+      simp [countMode, DirCfg.opts, s, nl]
+    · intro x st
+      unfold countStep
+      rw [countOne_eq]
+      unfold countVia pyGeneratePH pyGenerateUH
+      cases h1 : generatePHRd env x.data with
+      | error e => dm_close
+      | ok p1 =>
+        obtain ⟨o1, b1⟩ := p1
+        cases o1 with
+        | none => dm_close
+        | some ph =>
+          cases h2 : generateUHRd env ph.creator b1 with
+          | error e => dm_close
+          | ok p2 =>
+            obtain ⟨o2, b2⟩ := p2
+            cases o2 with
+            | none => dm_close
+            | some uh => by_cases hc : considerPEL uh.severity uh.actionFlags c.selCfg = true <;> dm_close)
 
 /-- `printPELInHexFormat(data)`: begin marker, one line per dump line, end marker; never raises -/
 theorem printPELInHexFormat (g : Bytes → OutM Unit (Ctl Unit)) (h : Gen.printPELInHexFormat? = some g) :
     ∀ data (st : PySt Unit), g data st = (.ok (.ret ()), hexOut data st) := by
-  cases h; intro data st
-  unfold hexOut
-  dm_close
+  cases h
+  all_goals (
+    intro data st
+    unfold hexOut
+    dm_close)
 
 /-- `extractAndSummarizePEL(file, config)`: what the model's `summaryOf` says about the file decides what is returned, printed
     (with `-x` the dump is printed HERE and nothing is returned) and reported -/
@@ -126,13 +136,136 @@ theorem extractAndSummarizePEL (g : Env → DirCfg → FileEntry → OutM Unit (
       | .some (sm, _, _) => if c.hex then (.ok (.ret ([], .str [])), hexOut f.data st) else (.ok (.ret (sm.eid, .obj sm.fields)), st)
       | .skip => (.ok (.ret ([], .str [])), st)
       | .diag => (.ok (.ret ([], .str [])), { st with errs := st.errs + 1 }) := by
-  cases h; intro env c f st
-  cases hh : c.hex <;>
-  (unfold summaryOf pyParsePELSummary hexOut
-   cases hps : parseSummary env c.selCfg f.data
-   · have hf := parseSummary_facts hps
-     dm_close
-   all_goals dm_close)
+  cases h
+  all_goals (
+    intro env c f st
+    cases hh : c.hex <;>
+    (unfold summaryOf pyParsePELSummary hexOut
+     cases hps : parseSummary env c.selCfg f.data
+     · have hf := parseSummary_facts hps
+       dm_close
+     all_goals dm_close))
+
+/-- `parsePELSummary(stream, config)` on a fresh stream over `b` hands back what the model's `parseSummary` says, and writes nothing -/
+theorem parsePELSummary (g : Env → DirCfg → Bytes → PyRes (Text × J) × Text × Nat) (h : Gen.parsePELSummary? = some g) :
+    ∀ env c b, NamesOk env.T → g env c b = (summaryResult (parseSummary env c.selCfg b), [], 0) := by
+  cases h
+  all_goals (
+    intro env c b hn
+    obtain ⟨n1, n2, n3⟩ := hn
+    unfold parseSummary parseSummaryRd
+    simp only [OutM.result, outm, pyGetItem_apply, pyStrIn_apply, generatePHRdJ, generateUHRdJ, rd_bind_apply, rd_pure_apply, rd_ite_app]
+    cases h1 : parseHeader b with
+    | error e => rfl
+    | ok p1 =>
+      obtain ⟨hd1, b1⟩ := p1
+      by_cases hid1 : hd1.id ≠ sidPH
+      · simp [hid1, summaryResult, outm, pyGetItem_apply, pyStrIn_apply]
+      · simp only [hid1, if_false]
+        have f2 := decodePH_facts env.T hd1 b1
+        cases h2 : decodePH env.T hd1 b1 with
+        | error e => rfl
+        | ok p2 =>
+          obtain ⟨⟨phJ, ph⟩, b2⟩ := p2
+          rw [h2] at f2
+          obtain ⟨lph, e_ph, k1, k2⟩ := f2
+          simp only at e_ph
+          subst e_ph
+          simp only [outm, pyGetItem_apply, pyStrIn_apply, rd_bind_apply, rd_pure_apply, rd_ite_app]
+          cases h3 : parseHeader b2 with
+          | error e => rfl
+          | ok p3 =>
+            obtain ⟨hd2, b3⟩ := p3
+            simp only []
+            by_cases hid2 : hd2.id ≠ sidUH
+            · simp [hid2, summaryResult, outm, pyGetItem_apply, pyStrIn_apply]
+            · simp only [hid2, if_false]
+              have f4 := decodeUH_facts env.T hd2 ph.creator b3
+              cases h4 : decodeUH env.T hd2 ph.creator b3 with
+              | error e => rfl
+              | ok p4 =>
+                obtain ⟨⟨uhJ, uh⟩, b4⟩ := p4
+                rw [h4] at f4
+                obtain ⟨luh, e_uh, k3, k4⟩ := f4
+                simp only at e_uh
+                subst e_uh
+                simp only [outm, pyGetItem_apply, pyStrIn_apply]
+                cases hsel : considerPEL uh.severity uh.actionFlags c.selCfg with
+                | false => simp [summaryResult, outm, pyGetItem_apply, pyStrIn_apply]
+                | true =>
+                  simp only [Bool.not_true, Bool.false_eq_true, if_false, if_true, outm, pyGetItem_apply, pyStrIn_apply]
+                  generalize hr : forEach (List.range' 2 (ph.sectionCount - 2)) _ _ = r
+                  have hrel : StepRel r (psLoop env ph.creator (ph.sectionCount - 2) { loc := (b4, []), out := [], errs := 0 }) := by
+                    rw [← hr]
+                    apply sum_loop
+                    clear hr
+                    intro i st
+                    unfold psStep
+                    simp only [outm, pyGetItem_apply, pyStrIn_apply, namedBy_apply, rd_map_apply]
+                    cases g1 : parseHeader st.loc.1 with
+                    | error e => simp [StepRel]
+                    | ok q1 =>
+                      obtain ⟨hd, c1⟩ := q1
+                      simp only [secHdr_eta]
+                      cases g2 : decodeSection env ph.creator hd c1 with
+                      | error e => simp [StepRel]
+                      | ok q2 =>
+                        obtain ⟨⟨j, rc⟩, c2⟩ := q2
+                        simp only []
+                        by_cases hid : hd.id = sidPS
+                        · have hps := decodeSection_ps env ph.creator hd hid c1
+                          rw [g2] at hps
+                          obtain ⟨l, r', e1, e2, e3⟩ := hps
+                          simp only at e1 e2
+                          subst e1 e2
+                          have hb : (hd.id == 20563) = true := by rw [hid]; rfl
+                          have hps20 : sidPS = 20563 := rfl
+                          simp only [pykeys] at n3 e3
+                          simp only [hb, hid, if_true, n3, jItem, objGet?, e3, outm, pyGetItem_apply, pyStrIn_apply, summaryMessage, jIn, pykeys]
+                          cases hED : objGet? l [69, 114, 114, 111, 114, 32, 68, 101, 116, 97, 105, 108, 115] with
+                          | none => simp [StepRel, addSM, pykeys, jstr, outm, pyGetItem_apply, pyStrIn_apply, rd_pure_apply, hps20]
+                          | some v =>
+                            cases v with
+                            | obj ed =>
+                              cases hM : objGet? ed [77, 101, 115, 115, 97, 103, 101] <;>
+                                simp [StepRel, addSM, pykeys, jstr, outm, pyGetItem_apply, pyStrIn_apply, jItem, hM, Rd.fail, rd_pure_apply, hps20]
+                            | _ => simp [StepRel, addSM, pykeys, jstr, outm, pyGetItem_apply, pyStrIn_apply, jItem, Rd.fail, rd_pure_apply, hps20]
+                        · have hb : (hd.id == 20563) = false := by
+                            cases hq : hd.id == 20563 with
+                            | false => rfl
+                            | true => exact absurd (show hd.id = sidPS from (by simpa using hq : hd.id = 20563)) hid
+                          simp [hb, hid, StepRel, outm, pyGetItem_apply, pyStrIn_apply]
+                  clear hr
+                  unfold psLoop at hrel
+                  simp only at hrel
+                  cases h5 : summarySections env ph.creator (ph.sectionCount - 2) b4 with
+                  | error e =>
+                    simp only [h5, StepRel] at hrel
+                    obtain ⟨r1, r2⟩ := r
+                    obtain ⟨e1, e2, e3⟩ := hrel
+                    simp only at e1 e2 e3
+                    subst e1
+                    simp [summaryResult, e2, e3]
+                  | ok p5 =>
+                    obtain ⟨⟨rc, msg⟩, b5⟩ := p5
+                    simp only [h5, StepRel] at hrel
+                    subst hrel
+                    obtain ⟨v1, hv1⟩ := Option.isSome_iff_exists.1 k1
+                    obtain ⟨v2, hv2⟩ := Option.isSome_iff_exists.1 k2
+                    obtain ⟨v3, hv3⟩ := Option.isSome_iff_exists.1 k3
+                    obtain ⟨v4, hv4⟩ := Option.isSome_iff_exists.1 k4
+                    simp only [pykeys] at n1 n2 hv1 hv2 hv3 hv4
+                    cases rc <;> cases msg <;>
+                      simp [n1, n2, objSet, jItem, objGet?, hv1, hv2, hv3, hv4, addSM, summaryResult, rd_pure_apply, kv, jstr, pykeys])
+
+/-- the primitive `pyParsePELSummary` that the translated modes call (PelModel/TransDirModes.lean) IS the translated
+    `parsePELSummary`, run on a fresh stream over the file's bytes: its value, or its exception -/
+theorem parsePELSummary_is_primitive (g : Env → DirCfg → Bytes → PyRes (Text × J) × Text × Nat) (h : Gen.parsePELSummary? = some g)
+    {σ : Type} (env : Env) (c : DirCfg) (b : Bytes) (hn : NamesOk env.T) (st : PySt σ) :
+    (pyParsePELSummary env c b : OutM σ (Text × J)) st = ((g env c b).1, st) := by
+  rw [parsePELSummary g h env c b hn]
+  unfold pyParsePELSummary summaryResult
+  cases parseSummary env c.selCfg b <;> rfl
 
 /-! ### the ★ theorems of C08, read with the functions of the source text -/
 
@@ -163,5 +296,14 @@ theorem all_eq (g : Env → DirCfg → Dir → CliOut) (h : Gen.extractAllPELsDa
     (g env c (C08.dirOf files)).stdout =
       listFraming ((C08.selectedIn c.opts c.rev files).map fun np => prettyPrint 34 (dumps (C08.renderD env np.2))) := by
   rw [extractAllPELsData g h]; exact C08.all_eq env c.opts files hg hnohex
+
+/-- C08 ★`summary_fields` for the translated `parsePELSummary`: on the encoding of a well-formed, displayable, selected PEL it
+    returns the entry id and exactly the members `specSummary` lists (with `Message` when the registry supplies one) -/
+theorem summary_fields (g : Env → DirCfg → Bytes → PyRes (Text × J) × Text × Nat) (h : Gen.parsePELSummary? = some g)
+    (env : Env) (c : DirCfg) (hn : NamesOk env.T) (p : APel) (hp : p.WF) (hr : ∃ d, render env p = .ok d)
+    (hsel : considerPEL p.uh.sev p.uh.af c.selCfg = true) :
+    g env c p.enc = (.ok (ox (fmtHex 2 p.ph.eid), .obj (C08.specSummary env p)), [], 0) := by
+  rw [parsePELSummary g h env c p.enc hn, C08.summary_fields env c.selCfg p hp hr hsel]
+  rfl
 
 end Pel.Tie
